@@ -278,7 +278,18 @@ func c20Run(c *core.Ctx, idx int) {
 		}
 
 		p := &c20Pending{mb: mb, body: body, useGzip: useGzip, i: i, w: w}
-		if c.Guard("filterHTML", nil, w, func() { p.tag, p.res, p.err = proxy.VerifFilterHTMLLazy(append([]byte(nil), wire...), hdr) }) {
+		// The original body arrives the way a network body does: in pieces of
+		// some size (also byte by byte, also the last piece together with
+		// io.EOF), with a known or an unknown declared length.
+		seg := &c20SegReader{data: append([]byte(nil), wire...), piece: []int{1 << 30, 1 << 30, 1, 13, 512, 1460, 4096, 16384}[c.Rng.Intn(8)], eofWithData: c.Rng.Intn(2) == 0}
+		declared := int64(len(wire))
+		if c.Rng.Intn(4) == 0 {
+			declared = -1
+		}
+		if seg.piece < 1<<30 {
+			c.Event("bodies_delivered_in_pieces", 1)
+		}
+		if c.Guard("filterHTML", nil, w, func() { p.tag, p.res, p.err = proxy.VerifFilterHTMLFrom(seg, declared, hdr) }) {
 			continue
 		}
 		pend = append(pend, p)
@@ -371,13 +382,38 @@ func c20Diff(a, b []byte) string {
 
 func itoa(i int) string { return strconv.Itoa(i) }
 
+// c20SegReader delivers data in pieces of at most piece bytes.
+type c20SegReader struct {
+	data        []byte
+	piece       int
+	eofWithData bool
+}
+
+// Read implements io.Reader.
+func (r *c20SegReader) Read(p []byte) (n int, err error) {
+	if len(r.data) == 0 {
+		return 0, io.EOF
+	}
+	n = min(len(p), r.piece, len(r.data))
+	copy(p, r.data[:n])
+	r.data = r.data[n:]
+	if len(r.data) == 0 && r.eofWithData {
+		return n, io.EOF
+	}
+
+	return n, nil
+}
+
+// Close implements io.Closer.
+func (r *c20SegReader) Close() error { return nil }
+
 func init() {
 	sizes := map[core.Tier]int{core.Quick: 6000, core.Thorough: 300000}
 	core.Register(&core.Prop{
 		ID:    "C20",
 		Level: "exploration",
 		Rule: "per case 4 bodies: ASCII, all 256 byte values or mostly high bytes, plain or gzip-encoded, with 0..4 markers (</head, <link, <style, <script in random letter case) whose first occurrence is placed at 0, early, at 16383/16384, straddling the window, beyond it, or where high-byte padding moves the transcoded offset over the window, with near-markers before it (truncated markers and markers with one byte changed in its case bit, high bit or value, e.g. 0x1c for '<'); " +
-			"oracle on bytes: output == body[:i]+tag+body[i:] when the marker's transcoded offset is inside the window, output == body when no marker starts before byte 16384, either exact form in between; Content-Length == len(output), Content-Encoding removed, tag has the content-script form (hook VerifFilterHTMLLazy: the four responses of a case are filtered first and their bodies are read afterwards in another order); non-trivial = body with a marker; distinct by body head, marker offset and encoding",
+			"oracle on bytes: output == body[:i]+tag+body[i:] when the marker's transcoded offset is inside the window, output == body when no marker starts before byte 16384, either exact form in between; Content-Length == len(output), Content-Encoding removed, tag has the content-script form (hook VerifFilterHTMLFrom: the original body is delivered in pieces of 1 / 13 / 512 / 1460 / 4096 / 16384 bytes or at once, with a known or unknown declared length; the four responses of a case are filtered first and their bodies are read afterwards in another order); non-trivial = body with a marker; distinct by body head, marker offset and encoding",
 		Assumptions: []string{
 			"the 16 KiB window is measured by the code on the Latin-1 to UTF-8 transcoded text; between the byte and the transcoded bound either outcome is accepted",
 		},
